@@ -560,3 +560,38 @@ def churn_dimensions(k: int) -> str:
         if i % 7 == 0:
             gc.collect()
     return out.hexdigest()[:12]
+
+
+# ------------------------------------------------------------------ name counters through the public API only
+
+
+class Counters:
+    """Per-prefix name counters, read with `last_id` and advanced with `next_id` -- the public functions
+    of id_generator. A forward jump really consumes the ids in between (cheap: a dict update each), so
+    no private attribute of the module is touched and a jump *is* that many creations as far as the
+    counter is concerned."""
+
+    MAX_STEP = 3_000_000
+
+    def get(self, prefix: str, default: int = 0) -> int:
+        from symplyphysics.core.symbols import id_generator  # pylint: disable=import-outside-toplevel
+        try:
+            return int(id_generator.last_id(prefix))
+        except KeyError:
+            return default
+
+    def jump(self, prefix: str, to: int) -> bool:
+        from symplyphysics.core.symbols import id_generator  # pylint: disable=import-outside-toplevel
+        cur = self.get(prefix)
+        if to <= cur or to - cur > self.MAX_STEP:
+            return False  # forward only (backward would alias names); absurdly long jumps are skipped
+        nxt = id_generator.next_id
+        for _ in range(to - cur):
+            nxt(prefix)
+        return True
+
+    def snapshot(self, prefixes=("SYM", "FUN", "QTY", "SYS", "VEC", "", "C")) -> dict:
+        return {p: self.get(p) for p in prefixes}
+
+
+COUNTERS = Counters()
